@@ -97,6 +97,48 @@ Theorem C20_rejects_exclusive :
 Proof. exact rejects_exclusive. Qed.
 Print Assumptions C20_rejects_exclusive.
 
+(* Further rejection classes of the validation code covered by the model (beyond the property's
+   list): unsupported container type (TypeError); perturbative symbol absent from a sympy
+   expression; non-commutative symbols / non-monomial keys of a monomial-key dict; non-square
+   block series; ragged nested block lists (zeroth order: at definition, later orders: at their
+   first evaluation, C20_rejects_ragged_term); H_0 blocks that are not operators; all-zero
+   diagonal of H_0; a mask that is not an ndarray. *)
+Theorem C20_rejects_container :
+  forall c, defect_container c ->
+  exists e, validate c = Reject e AtDefinition /\
+            (listed e \/ (e = UnboundLocalError /\ custom c = true)).
+Proof. exact rejects_container. Qed.
+Print Assumptions C20_rejects_container.
+
+(* malformed (right, left) entries (length, shapes) and the implicit-mode restrictions: input
+   already separated into blocks, symbolic H_0, ambient dimension mismatch (ValueError), subspace
+   vectors that are not numpy arrays (TypeError).  (Non-Hermitian implicit KPM and an implicit
+   block in fully_diagonalize are in C20_rejects_exclusive.) *)
+Theorem C20_rejects_vectors :
+  forall c ev, c_eigvecs c = Some ev -> defect_vectors c ev ->
+  exists e, validate c = Reject e AtDefinition /\
+            (listed e \/ (e = UnboundLocalError /\ custom c = true)).
+Proof. exact rejects_vectors. Qed.
+Print Assumptions C20_rejects_vectors.
+
+Theorem C20_rejects_ragged_term :
+  forall c n, c_preblocked c = true -> c_ragged c n = true ->
+  (exists e, validate c = Reject e AtDefinition /\
+             (listed e \/ (e = UnboundLocalError /\ custom c = true))) \/
+  (validate c = Accept /\ exists e, on_first_use c (UseTerm n) = Reject e AtFirstUse /\ e = ValueError).
+Proof. exact rejects_ragged_term. Qed.
+Print Assumptions C20_rejects_ragged_term.
+
+(* dead code: the NotImplementedError of the implicit KPM path for (right, left) pairs is always
+   preceded by the Hermitian-pairs ValueError or the non-Hermitian-KPM NotImplementedError *)
+Theorem C20_kpm_pairs_shadowed :
+  forall c,
+  (implicit c && negb (custom c) && negb (c_direct_solver c) && evb c ev_has_pair)%bool = true ->
+  evb c (fun ev => (c_hermitian c && ev_has_pair ev)%bool) = true \/
+  (implicit c && negb (c_hermitian c) && negb (custom c) && negb (c_direct_solver c))%bool = true.
+Proof. exact kpm_pairs_shadowed. Qed.
+Print Assumptions C20_kpm_pairs_shadowed.
+
 Theorem C20_rejects_solver_fd_exact :
   forall c, custom c = true -> fd_truth (c_fd c) = Some true ->
   validate c = Reject NotImplementedError AtDefinition.
@@ -143,7 +185,8 @@ Print Assumptions C20_finite.
 Definition good_mask : mask := mkMask true true false.
 Definition wp_call : call :=
   mkCall FDictTuple 2 false KeysOk true None true (FdDict [(1, good_mask)]) false true None true
-         false 3 (fun _ _ => BZero) (fun i => Nat.eqb i 2) false (fun _ _ => false) (fun _ => Unknown).
+         false 3 (fun _ _ => BZero) (fun i => Nat.eqb i 2) false (fun _ _ => false) (fun _ => Unknown)
+         false (fun _ => false).
 
 Example C20_wellposed_ex : Wellposed wp_call /\ validate wp_call = Accept.
 Proof.
@@ -159,24 +202,28 @@ Definition with_off (c : call) : call :=
          (c_direct_solver c) (c_fd c) (c_preblocked c) (c_blocks_square c) (c_eigvecs c) (c_indices c)
          (c_h0_symbolic c) (c_nblocks c)
          (fun i j => if (Nat.eqb i 1 && Nat.eqb j 2)%bool then BNonzero else BZero)
-         (c_h0_diag_zero c) (c_second_quant c) (c_pair_shares c) (c_term_herm c).
+         (c_h0_diag_zero c) (c_second_quant c) (c_pair_shares c) (c_term_herm c)
+         (c_invalid_operator c) (c_ragged c).
 Definition with_fd (c : call) (f : fdform) : call :=
   mkCall (c_format c) (c_nparams c) (c_symbols_missing c) (c_keys c) (c_hermitian c) (c_solver_arity c)
          (c_direct_solver c) f (c_preblocked c) (c_blocks_square c) (c_eigvecs c) (c_indices c)
          (c_h0_symbolic c) (c_nblocks c) (c_h0_off c)
-         (c_h0_diag_zero c) (c_second_quant c) (c_pair_shares c) (c_term_herm c).
+         (c_h0_diag_zero c) (c_second_quant c) (c_pair_shares c) (c_term_herm c)
+         (c_invalid_operator c) (c_ragged c).
 Definition with_shares (c : call) : call :=
   mkCall (c_format c) (c_nparams c) (c_symbols_missing c) (c_keys c) (c_hermitian c) (c_solver_arity c)
          (c_direct_solver c) (c_fd c) (c_preblocked c) (c_blocks_square c) (c_eigvecs c) (c_indices c)
          (c_h0_symbolic c) (c_nblocks c) (c_h0_off c)
-         (c_h0_diag_zero c) (c_second_quant c) (fun i j => (Nat.eqb i 0 && Nat.eqb j 2)%bool) (c_term_herm c).
+         (c_h0_diag_zero c) (c_second_quant c) (fun i j => (Nat.eqb i 0 && Nat.eqb j 2)%bool) (c_term_herm c)
+         (c_invalid_operator c) (c_ragged c).
 
 (* eigenvector designation, every subspace orthonormal within itself, two subspaces overlapping *)
 Definition with_vecs (c : call) (ev : eigvecs) : call :=
   mkCall (c_format c) (c_nparams c) (c_symbols_missing c) (c_keys c) (c_hermitian c) (c_solver_arity c)
          (c_direct_solver c) (c_fd c) (c_preblocked c) (c_blocks_square c) (Some ev) false
          (c_h0_symbolic c) (c_nblocks c) (c_h0_off c)
-         (c_h0_diag_zero c) (c_second_quant c) (c_pair_shares c) (c_term_herm c).
+         (c_h0_diag_zero c) (c_second_quant c) (c_pair_shares c) (c_term_herm c)
+         (c_invalid_operator c) (c_ragged c).
 Definition cross_vecs : eigvecs := mkEigvecs false true true VecNumpy Yes No true true true.
 Definition fine_vecs : eigvecs := mkEigvecs false true true VecNumpy Yes Yes true true true.
 
